@@ -73,7 +73,7 @@ pub fn run(env: &Env, run: &Run) -> (Stats, Coverage) {
     st.merge(strtree(&sp, n2, |_c, s, st| visit(env, s, st)));
     st.merge(cpsweep(|c, st| {
         let x = c as u32;
-        for l in [vec![x], vec![0x20, x], vec![x, 0x20], vec![0x61, x, 0x20, 0x62], vec![0xA8, x], vec![0xE9, x, 0x3000, 0x41], vec![x, x], vec![0x61, x, 0x334]] {
+        for l in [vec![x], vec![0x20, x], vec![x, 0x20], vec![0x61, x, 0x20, 0x62], vec![0xA8, x], vec![0xE9, x, 0x3000, 0x41], vec![x, x], vec![0x61, x, 0x334], vec![0x6C, 0xB7, 0x6C, x], vec![x, 0x6C, 0xB7, 0x6C], vec![0x915, x, 0x94D, 0x200D], vec![0x30A2, 0x30FB, x]] {
             let s = from_cps(&l);
             visit(env, &s, st);
         }
